@@ -103,7 +103,7 @@ func freeAddr() string {
 func (g *gen) e2eRequest(i int) *base.Request {
 	req := g.request()
 	if req.URL == nil {
-		req.URL, _ = base.ParseURL("rtsp://127.0.0.1/stream")
+		req.URL, _ = safeParseURL(g.c, "rtsp://127.0.0.1/stream")
 	}
 	delete(req.Header, "Session")
 	delete(req.Header, "Cseq")
@@ -191,13 +191,25 @@ func (g *gen) e2eRunOnce(name, kind string, addr string, h *e2eHandler, n int, l
 			req.Method = base.GetParameter
 			req.Body = g.bytesExcept(5000+g.r.IntN(15000), "")
 		}
+		// the server and the writer goroutine serialise these outside any recover: check them here
+		if !checkMarshal(c, name, []any{req}) {
+			req = &base.Request{Method: base.Options, Header: base.Header{"CSeq": {strconv.Itoa(i + 1)}}}
+			req.URL, _ = safeParseURL(c, "rtsp://127.0.0.1/stream")
+		}
 		reqs = append(reqs, req)
 		if req.Method == base.GetParameter || req.Method == base.SetParameter {
 			res := g.e2eResponse()
 			if i == 0 {
 				res.Body = g.bytesExcept(5000+g.r.IntN(15000), "")
 			}
-			h.scripted[strconv.Itoa(i+1)] = res
+			probe := *res
+			probe.Header = base.Header{"CSeq": {"1"}, "Server": {"gortsplib"}}
+			for k, v := range res.Header {
+				probe.Header[k] = v
+			}
+			if checkMarshal(c, name, []any{&probe}) {
+				h.scripted[strconv.Itoa(i+1)] = res
+			}
 		}
 	}
 	h.mu.Unlock()
@@ -207,6 +219,11 @@ func (g *gen) e2eRunOnce(name, kind string, addr string, h *e2eHandler, n int, l
 	var stream bytes.Buffer
 	werr := make(chan error, 1)
 	go func() {
+		defer func() {
+			if p := recover(); p != nil {
+				werr <- fmt.Errorf("panic in WriteRequest: %v", p)
+			}
+		}()
 		for _, req := range reqs {
 			nc.SetWriteDeadline(time.Now().Add(20 * time.Second))
 			if err := cn.WriteRequest(req); err != nil {
@@ -223,14 +240,21 @@ func (g *gen) e2eRunOnce(name, kind string, addr string, h *e2eHandler, n int, l
 		for k, v := range req.Header {
 			cp.Header[k] = v
 		}
-		b, _ := cp.Marshal()
+		var b []byte
+		catch(c, marshalInput(name, []any{&cp}), "Request.Marshal", func() { b, _ = cp.Marshal() })
 		stream.Write(b)
 		written = append(written, fmtElem(&cp))
 	}
 	var got []string
 	for i := 0; i < n; i++ {
 		nc.SetReadDeadline(time.Now().Add(20 * time.Second))
-		what, err := cn.Read()
+		var what any
+		var err error
+		if !catch(c, map[string]any{"kind": "e2e-" + kind, "stream": hexs(stream.Bytes())}, "conn.Conn.Read (client side of the tunnel)",
+			func() { what, err = cn.Read() }) {
+			got = append(got, "error: panic")
+			break
+		}
 		if err != nil {
 			got = append(got, "error: "+classify(err))
 			break
